@@ -145,7 +145,9 @@ using EV = typename VarOf<Etl, L>::type;
 template <typename L>
 using SV = typename VarOf<Std, L>::type;
 
-inline constexpr bool kHasMemberSwap = requires(EV<LX>& a, EV<LX>& b) { a.swap(b); };
+template <typename V>
+inline constexpr bool kHasMemberSwapT = requires(V& a, V& b) { a.swap(b); };
+inline constexpr bool kHasMemberSwap = kHasMemberSwapT<EV<LX>>;
 // non-alternative argument types of converting construction / assignment: used only where BOTH libraries accept them
 template <typename F>
 inline constexpr bool kForeignCtorOk = std::is_constructible_v<SV<LX>, F> && requires(F f) { EV<LX>(static_cast<F&&>(f)); };
@@ -510,19 +512,20 @@ struct VarWorld {
     }
 };
 
-struct VarSubject {
-    struct Table {
-        Op ops[kOpCount]{};
-        unsigned n = 0;
-    };
-    static constexpr Table make_table()
-    {
-        Table t;
-        for (unsigned k = 0; k < kOpCount; ++k) {
-            if (applicable((Op)k)) { t.ops[t.n++] = (Op)k; }
-        }
-        return t;
+struct Table {
+    Op ops[kOpCount]{};
+    unsigned n = 0;
+};
+constexpr Table make_table()
+{
+    Table t;
+    for (unsigned k = 0; k < kOpCount; ++k) {
+        if (applicable((Op)k)) { t.ops[t.n++] = (Op)k; }
     }
+    return t;
+}
+
+struct VarSubject {
     static constexpr Table table   = make_table();
     static constexpr unsigned kOps = table.n;
 
